@@ -520,6 +520,15 @@ fn gen_env(r: &mut Rng, discovered: &[(String, Vec<String>)]) -> Env {
                 a.push("--test".to_string());
             }
             if r.chance(1, 2) {
+                a.extend(["--crate-type".to_string(), r.pick(&["bin", "lib", "rlib", "proc-macro", "cdylib", "dylib", "staticlib"]).to_string()]);
+                if r.chance(1, 4) {
+                    a.extend(["--crate-type".to_string(), r.pick(&["bin", "lib", "rlib"]).to_string()]);
+                }
+            }
+            if r.chance(1, 3) {
+                a.push(format!("--emit={}", r.pick(&["metadata", "dep-info,metadata,link", "dep-info,metadata", "link"])));
+            }
+            if r.chance(1, 2) {
                 a.push(format!("--diagnostic-width={}", r.pick(&[40usize, 72, 80, 100, 140, 200])));
             }
             if r.chance(1, 3) {
@@ -760,6 +769,20 @@ pub fn gen_session(seed: u64, index: u64, c: &Corpus) -> Session {
             derive: r.pick(&c.derives).to_string(),
             item,
         });
+    }
+    // items that refer to other items of this session by name
+    for _ in 0..r.below(3) {
+        let (a, b) = workload::linked_pair(&mut r);
+        keys.push(a);
+        probes.push(keys.len());
+        keys.push(b);
+    }
+    for _ in 0..r.below(5) {
+        let base = r.below(keys.len().max(1));
+        if let Some(k) = workload::referrer(&keys[base].clone(), &mut r) {
+            probes.push(keys.len());
+            keys.push(k);
+        }
     }
     let fault_lo = keys.len();
     for _ in 0..r.range(1, 6) {
